@@ -401,6 +401,13 @@ func scenParamChange(start int64, field string) *scenario {
 				val = new(big.Int).Add(new(big.Int).Mul(cur, big.NewInt(3)), big.NewInt(7)).String()
 			case "lazyRewardBlocks":
 				val = fmt.Sprint(P.LazyRewardBlocks + 3)
+			case "maxValidatorCnt":
+				// lower the limit below the current number of validators
+				n := int64(len(sc.hr.M.lastValidators(sc.h))) - 1
+				if n < 1 {
+					n = 1
+				}
+				val = fmt.Sprint(n)
 			default:
 				val = "7"
 			}
